@@ -506,6 +506,18 @@ func extractSharedObj(repo, out string) ([]string, error) {
 		fmt.Fprintf(&b, "(%q, %v)", k, has(k))
 	}
 	b.WriteString("]\n\n")
+	b.WriteString("/-- the read-only entry points of Expr, Script and Filter by name (the harness' shared-object inventory runs each of them) -/\ndef jpSharedTypeEntries : List String := [")
+	first := true
+	for _, k := range entries {
+		if strings.HasPrefix(k, "Expr.") || strings.HasPrefix(k, "Script.") || strings.HasPrefix(k, "Filter.") {
+			if !first {
+				b.WriteString(", ")
+			}
+			first = false
+			fmt.Fprintf(&b, "%q", k)
+		}
+	}
+	b.WriteString("]\n\n")
 	fmt.Fprintf(&b, "/-- functions of package jp reached from them (call graph by name) -/\ndef jpReached : Nat := %d\n\n", len(reached))
 	fmt.Fprintf(&b, "/-- parameters of a shared type (Expr, *Filter, *Script, Frag, *Proc, Union) in those functions that are followed like the receiver -/\ndef jpSharedParams : Nat := %d\n\n", nParams)
 	fmt.Fprintf(&b, "/-- … and those that are NOT, by name: the location path a Locate / Walk call builds for its own caller -/\ndef jpPrivatePathParams : List String := [\"cp\", \"path\", \"pp\"]\ndef jpPrivatePathParamCount : Nat := %d\n\n", nPrivate)
